@@ -236,6 +236,31 @@ def multibyte_histories():
     return hs
 
 
+def blank_name_histories():
+    """Entries whose names consist of white space only, addressed by their relative spelling: a name is never "no name"."""
+    hs = []
+    for k, nm in enumerate((" ", "  ", "\t")):
+        calls = [{"op": "initialize"}, {"op": "mkdir", "name": "/a", "perm": 0o755}, {"op": "createfile", "name": "/a/f", "blob": 0}, {"op": "mkdir", "name": "/" + nm, "perm": 0o755},
+                 {"op": "createfile", "name": "/" + nm + "/x", "blob": 1}, {"op": "chmod", "name": nm, "perm": 0o700}, {"op": "rename", "name": nm + "/x", "name2": nm + "/y"},
+                 {"op": "removeall", "name": nm}, {"op": "mkdirall", "name": nm + "/" + nm, "perm": 0o755}, {"op": "remove", "name": nm + "/" + nm}, {"op": "remove", "name": nm},
+                 {"op": "createfile", "name": "/a/g", "blob": 1}]
+        hs.append({"config": {"rs": [20, 3, 1][k % 3], "cache": "file"}, "blobs": [{"seed": 1, "len": 700}, {"seed": 2, "len": 10}], "obs": FS_OBS, "calls": calls, "_scenario": "blank-name:%r" % nm})
+    return hs
+
+
+def symlink_histories():
+    """Symbolic links (not part of model M1): judged by the rebuild / reopen oracle of C01 only, where their behaviour is a known finding."""
+    hs = []
+    bodies = [[{"op": "createfile", "name": "/a", "blob": 0}, {"op": "symlink", "name": "/a", "name2": "/l"}, {"op": "mkdir", "name": "/d", "perm": 0o755}],
+              [{"op": "createfile", "name": "/a", "blob": 0}, {"op": "symlink", "name": "/a", "name2": "/l"}, {"op": "rename", "name": "/a", "name2": "/b"}, {"op": "createfile", "name": "/a", "blob": 1},
+               {"op": "remove", "name": "/l"}, {"op": "mkdir", "name": "/d", "perm": 0o755}],
+              [{"op": "mkdir", "name": "/d", "perm": 0o755}, {"op": "symlink", "name": "/missing", "name2": "/d/dangling"}, {"op": "createfile", "name": "/d/f", "blob": 1}, {"op": "remove", "name": "/d/dangling"}]]
+    for k, b in enumerate(bodies):
+        hs.append({"config": {"rs": [20, 3, 1][k % 3], "cache": "file"}, "blobs": [{"seed": 1, "len": 10}, {"seed": 2, "len": 700}], "obs": ["tree", "rebuild", "reopen", "tape", "prefix"],
+                   "calls": [{"op": "initialize"}] + b, "_nomodel": True, "_symlinks": True, "_scenario": "symlinks:%d" % k})
+    return hs
+
+
 def interplay_histories():
     """A written handle kept open across calls that remove or move its entry, and relative spellings of names
     ('a/b', './a/b', '.', '') in every position.  The open-handle histories are not evaluated on M1 (handles are modelled separately, File.v):
@@ -283,6 +308,8 @@ def fs_stream(ctx):
     hs += roworder_histories()
     hs += multibyte_histories()
     hs += overwrite_histories()
+    hs += symlink_histories()
+    hs += blank_name_histories()
     hs += fs_histories(ctx, 40 if quick else 400, 16 if quick else 40, ops_level=True)
     hs += fs_histories(ctx, 30 if quick else 300, 14 if quick else 30, ops_level=False)
     hs = replay_override(ctx, "history", hs, lambda h: dict(h, obs=FS_OBS))
